@@ -13,7 +13,9 @@ def handle(cmd, args):
         proof = bytes.fromhex(args[2]).decode('latin-1') if args[2] != '-' else ''
 
         class Dummy:
+            # what _import_proof reads of the converter: the $f order and the declared variables ($v, sorted like the slicer writes them)
             _floating_patterns = floats
+            _declared_variables = {v: Metavariable(v) for v in sorted(set(floats) | set(vars_))}
         # a statement "|- ( f v1 v2 ... )" whose metavariables are vars_
         stmt = ProvableStatement('goal', (Application('|-'), Application('f', tuple(Metavariable(v) for v in vars_))), proof)
         r = MetamathConverter._import_proof(Dummy(), stmt)
